@@ -5,6 +5,7 @@ import SF.GenEq.Tactic
 set_option linter.unusedSimpArgs false
 set_option linter.unusedSectionVars false
 set_option linter.unusedVariables false
+set_option maxHeartbeats 400000
 /-! Translator tie for `Echo` (src/pure_functions/echo.rs): the view generated from the Rust text = the model's `echoV`,
 for every child view: same answers and same panics on every input.  (Table-driven: tools/mk_geneq.py.) -/
 namespace SF.GenEq.Echo
@@ -22,7 +23,7 @@ theorem upd_eq  (s : State α) (x : α)  :
     (update  s x).map (abs ) = (echoV).upd (abs  s) x := by
   simp only [update, wrap, mapV, binop, echoV, abs]; gen_tie
 theorem upd_cfg  (s s' : State α) (x : α) : update  s x = .ok s' → True := by
-  simp only [update]; gen_tie
+  simp only [update, echoV]; gen_tie
 theorem last_eq  (s : State α)  : last  s = (echoV).last (abs  s) := by
   simp only [last, wrap, mapV, binop, echoV, abs]; gen_tie
 
@@ -33,14 +34,16 @@ def sim    : Sim (mkView (s0 : State α) (update ) (last )) (echoV) where
   init_abs := by rfl
   upd := fun (s : State α) x hs => by
     skip
-    exact upd_eq  s x 
+    have := upd_eq  s x  
+    exact this
   upd_cfg := fun (s : State α) x s' hs h => by
     skip
     have := upd_cfg  s s' x h
     simp_all
   last := fun (s : State α) hs => by
     skip
-    exact last_eq  s 
+    have := last_eq  s  
+    exact this
 
 /-- the Rust text of `Echo`, as translated, and the model agree on every input: same answers, same panics -/
 theorem tie    (xs : List α) :
